@@ -50,6 +50,11 @@ BUILD_STUBS = [
     {'name': 'n8', 'kind': 'part',
      'params': [['h', 'pk', None], ['uid', 'pk', None], ['x', 'pk', 'v']],
      'pre': {'pos_src': ['Hostile()']}},
+    # tag annotations on a positional-only parameter and on *args / **kwargs
+    {'name': 'n10', 'kind': 'func',
+     'params': [['uid', 'po', None], ['x', 'po', 'v', ['T1']],
+                ['y', 'pk', 'v', ['U0']], ['args', 'va', None, ['T2']],
+                ['kw', 'vk', None, ['T0']]]},
     # a tag annotation given as a STRING that names a module global which does
     # not exist yet when the first configurations are made (forward reference)
     {'name': 'n9', 'kind': 'func',
